@@ -12,8 +12,9 @@ import (
 )
 
 type SV struct {
-	V Val
-	T types.Type
+	V     Val
+	T     types.Type
+	Deref types.Type // non-nil: V is a pointer to a captured variable of this type; specs see the variable itself
 }
 
 type SpecEnv struct {
@@ -115,7 +116,7 @@ func (e *SpecEnv) fieldOf(x SV, name string) SV {
 		s := t.Underlying().(*types.Struct)
 		for i := 0; i < s.NumFields(); i++ {
 			if s.Field(i).Name() == name {
-				return SV{x.V.Fs[i], s.Field(i).Type()}
+				return SV{V: x.V.Fs[i], T: s.Field(i).Type()}
 			}
 		}
 		specFail("no field %s in struct value of type %s", name, t)
@@ -137,12 +138,12 @@ func (e *SpecEnv) fieldOf(x SV, name string) SV {
 		h := sh.cur(hn, "(Array Int "+smtSortOf(gt)+")")
 		term := fmt.Sprintf("(select %s %s)", h, x.V.T)
 		if _, ok := gt.Underlying().(*types.Map); ok {
-			return SV{Val{K: KArr, T: term}, gt}
+			return SV{V: Val{K: KArr, T: term}, T: gt}
 		}
 		if isBool(gt) {
-			return SV{BoolV(term), gt}
+			return SV{V: BoolV(term), T: gt}
 		}
-		return SV{IntV(term), gt}
+		return SV{V: IntV(term), T: gt}
 	}
 	pk := (*types.Package)(nil)
 	if n, ok := t.(*types.Named); ok {
@@ -172,10 +173,10 @@ func (e *SpecEnv) fieldOf(x SV, name string) SV {
 		if k == len(index)-1 {
 			if _, isStruct := f.Type().Underlying().(*types.Struct); isStruct {
 				// embedded struct: its address, typed as a pointer
-				return SV{IntV(addOff(cur, e.g.P.fieldOffset(cs, idx))), types.NewPointer(f.Type())}
+				return SV{V: IntV(addOff(cur, e.g.P.fieldOffset(cs, idx))), T: types.NewPointer(f.Type())}
 			}
 			v := sh.loadField(curT, cs, idx, cur)
-			return SV{v, f.Type()}
+			return SV{V: v, T: f.Type()}
 		}
 		// step into embedded
 		if p, ok := f.Type().Underlying().(*types.Pointer); ok {
@@ -205,6 +206,10 @@ func (e *SpecEnv) tryField(x SV, name string) (r SV, ok bool) {
 
 func (e *SpecEnv) lookupIdent(name string) SV {
 	if v, ok := e.vars[name]; ok {
+		if v.Deref != nil {
+			sh := e.shadow()
+			return SV{V: sh.derefLoad(v.V, v.Deref), T: v.Deref}
+		}
 		return v
 	}
 	if gg, ok := e.g.DB.Ghosts["$g."+name]; ok {
@@ -215,12 +220,12 @@ func (e *SpecEnv) lookupIdent(name string) SV {
 		sh := e.shadow()
 		h := sh.cur("$g."+name, smtSortOf(gt))
 		if _, isMap := gt.Underlying().(*types.Map); isMap {
-			return SV{Val{K: KArr, T: h}, gt}
+			return SV{V: Val{K: KArr, T: h}, T: gt}
 		}
 		if isBool(gt) {
-			return SV{BoolV(h), gt}
+			return SV{V: BoolV(h), T: gt}
 		}
-		return SV{IntV(h), gt}
+		return SV{V: IntV(h), T: gt}
 	}
 	// package-level constant or variable
 	if sp, ok := e.g.P.Pkgs[e.pkg]; ok {
@@ -241,15 +246,15 @@ func (e *SpecEnv) objValue(o types.Object) SV {
 			if strings.HasPrefix(s, "-") {
 				s = "(- " + s[1:] + ")"
 			}
-			return SV{IntV(s), tInt}
+			return SV{V: IntV(s), T: tInt}
 		case constant.Bool:
 			if constant.BoolVal(c.Val()) {
-				return SV{BoolV("true"), tBool}
+				return SV{V: BoolV("true"), T: tBool}
 			}
-			return SV{BoolV("false"), tBool}
+			return SV{V: BoolV("false"), T: tBool}
 		case constant.Float:
 			if i, ok := constant.Int64Val(constant.ToInt(c.Val())); ok {
-				return SV{IntV(smtInt(i)), tInt}
+				return SV{V: IntV(smtInt(i)), T: tInt}
 			}
 		}
 	case *types.Var:
@@ -258,7 +263,7 @@ func (e *SpecEnv) objValue(o types.Object) SV {
 			if m, ok := sp.Members[c.Name()]; ok {
 				if gl, ok := m.(*ssa.Global); ok {
 					sh := e.shadow()
-					return SV{sh.derefLoad(sh.globalPtr(gl), c.Type()), c.Type()}
+					return SV{V: sh.derefLoad(sh.globalPtr(gl), c.Type()), T: c.Type()}
 				}
 			}
 		}
@@ -296,11 +301,11 @@ func (e *SpecEnv) tr(x *Expr) SV {
 			fmt.Sscanf(s, "0x%x", &v)
 			s = fmt.Sprint(v)
 		}
-		return SV{IntV(s), tInt}
+		return SV{V: IntV(s), T: tInt}
 	case "true", "false":
-		return SV{BoolV(x.Op), tBool}
+		return SV{V: BoolV(x.Op), T: tBool}
 	case "nil":
-		return SV{IntV("0"), tRef}
+		return SV{V: IntV("0"), T: tRef}
 	case "result":
 		return e.lookupIdent("result")
 	case "ident":
@@ -318,7 +323,7 @@ func (e *SpecEnv) tr(x *Expr) SV {
 		if err != nil {
 			specFail("%v", err)
 		}
-		return SV{v.V, t}
+		return SV{V: v.V, T: t}
 	case "sel":
 		// package-qualified name?
 		if id := x.Args[0]; id.Op == "ident" {
@@ -347,27 +352,27 @@ func (e *SpecEnv) tr(x *Expr) SV {
 			sz := e.g.P.sizeof(u.Elem())
 			a := fmt.Sprintf("(+ %s %s)", b.V.Fs[0].T, mulC(i.V.T, sz))
 			p := sh.ptrTo(u.Elem(), a)
-			return SV{sh.derefLoad(p, u.Elem()), u.Elem()}
+			return SV{V: sh.derefLoad(p, u.Elem()), T: u.Elem()}
 		case *types.Array:
 			t := fmt.Sprintf("(select %s %s)", b.V.T, i.V.T)
 			if isBool(u.Elem()) {
-				return SV{BoolV(t), u.Elem()}
+				return SV{V: BoolV(t), T: u.Elem()}
 			}
-			return SV{IntV(t), u.Elem()}
+			return SV{V: IntV(t), T: u.Elem()}
 		case *types.Map:
 			if b.V.K == KArr { // ghost map
 				t := fmt.Sprintf("(select %s %s)", b.V.T, i.V.T)
 				if _, nested := u.Elem().Underlying().(*types.Map); nested {
-					return SV{Val{K: KArr, T: t}, u.Elem()}
+					return SV{V: Val{K: KArr, T: t}, T: u.Elem()}
 				}
 				if isBool(u.Elem()) {
-					return SV{BoolV(t), u.Elem()}
+					return SV{V: BoolV(t), T: u.Elem()}
 				}
-				return SV{IntV(t), u.Elem()}
+				return SV{V: IntV(t), T: u.Elem()}
 			}
 			sh := e.shadow()
 			v, _ := sh.mapGet2(u, b.V.T, i.V.T, false)
-			return SV{v, u.Elem()}
+			return SV{V: v, T: u.Elem()}
 		}
 		specFail("cannot index value of type %s", b.T)
 	case "call":
@@ -383,11 +388,11 @@ func (e *SpecEnv) tr(x *Expr) SV {
 			n := sym(fmt.Sprintf("q.%s.%d", b.Name, e.qd))
 			bs = append(bs, fmt.Sprintf("(%s %s)", n, smtSortOf(t)))
 			if isBool(t) {
-				extra[b.Name] = SV{BoolV(n), t}
+				extra[b.Name] = SV{V: BoolV(n), T: t}
 			} else if _, isMap := t.Underlying().(*types.Map); isMap {
-				extra[b.Name] = SV{Val{K: KArr, T: n}, t}
+				extra[b.Name] = SV{V: Val{K: KArr, T: n}, T: t}
 			} else {
-				extra[b.Name] = SV{IntV(n), t}
+				extra[b.Name] = SV{V: IntV(n), T: t}
 				if isInteger(t) && !(t == tInt) {
 					lo, hi := intRange(t)
 					guards = append(guards, fmt.Sprintf("(<= %s %s) (<= %s %s)", lo, n, n, hi))
@@ -409,13 +414,25 @@ func (e *SpecEnv) tr(x *Expr) SV {
 				bt = fmt.Sprintf("(and %s %s)", g, bt)
 			}
 		}
-		return SV{BoolV(fmt.Sprintf("(%s (%s) %s)", x.Op, strings.Join(bs, " "), bt)), tBool}
+		if len(x.Pats) > 0 {
+			var ps []string
+			for _, grp := range x.Pats {
+				var ts []string
+				for _, pe := range grp {
+					pv := inner.tr(pe)
+					ts = append(ts, inner.shadow().toScalar(pv.V).T)
+				}
+				ps = append(ps, ":pattern ("+strings.Join(ts, " ")+")")
+			}
+			bt = fmt.Sprintf("(! %s %s)", bt, strings.Join(ps, " "))
+		}
+		return SV{V: BoolV(fmt.Sprintf("(%s (%s) %s)", x.Op, strings.Join(bs, " "), bt)), T: tBool}
 	case "!":
 		a := e.tr(x.Args[0])
-		return SV{BoolV(not(a.V.T)), tBool}
+		return SV{V: BoolV(not(a.V.T)), T: tBool}
 	case "neg":
 		a := e.tr(x.Args[0])
-		return SV{IntV(fmt.Sprintf("(- %s)", a.V.T)), tInt}
+		return SV{V: IntV(fmt.Sprintf("(- %s)", a.V.T)), T: tInt}
 	case "ite":
 		c := e.tr(x.Args[0])
 		a := e.tr(x.Args[1])
@@ -431,25 +448,25 @@ func (e *SpecEnv) tr(x *Expr) SV {
 		av, bv := sh.toScalar(a.V), sh.toScalar(b.V)
 		switch x.Op {
 		case "&&":
-			return SV{BoolV(and(av.T, bv.T)), tBool}
+			return SV{V: BoolV(and(av.T, bv.T)), T: tBool}
 		case "||":
-			return SV{BoolV(fmt.Sprintf("(or %s %s)", av.T, bv.T)), tBool}
+			return SV{V: BoolV(fmt.Sprintf("(or %s %s)", av.T, bv.T)), T: tBool}
 		case "==>":
-			return SV{BoolV(fmt.Sprintf("(=> %s %s)", av.T, bv.T)), tBool}
+			return SV{V: BoolV(fmt.Sprintf("(=> %s %s)", av.T, bv.T)), T: tBool}
 		case "<==>":
-			return SV{BoolV(fmt.Sprintf("(= %s %s)", av.T, bv.T)), tBool}
+			return SV{V: BoolV(fmt.Sprintf("(= %s %s)", av.T, bv.T)), T: tBool}
 		case "==":
-			return SV{BoolV(eqVals(av, bv)), tBool}
+			return SV{V: BoolV(eqVals(av, bv)), T: tBool}
 		case "!=":
-			return SV{BoolV(not(eqVals(av, bv))), tBool}
+			return SV{V: BoolV(not(eqVals(av, bv))), T: tBool}
 		case "<", "<=", ">", ">=":
-			return SV{BoolV(fmt.Sprintf("(%s %s %s)", x.Op, av.T, bv.T)), tBool}
+			return SV{V: BoolV(fmt.Sprintf("(%s %s %s)", x.Op, av.T, bv.T)), T: tBool}
 		case "+", "-", "*":
-			return SV{IntV(fmt.Sprintf("(%s %s %s)", x.Op, av.T, bv.T)), tInt}
+			return SV{V: IntV(fmt.Sprintf("(%s %s %s)", x.Op, av.T, bv.T)), T: tInt}
 		case "/":
-			return SV{IntV(fmt.Sprintf("(div %s %s)", av.T, bv.T)), tInt}
+			return SV{V: IntV(fmt.Sprintf("(div %s %s)", av.T, bv.T)), T: tInt}
 		case "%":
-			return SV{IntV(fmt.Sprintf("(mod %s %s)", av.T, bv.T)), tInt}
+			return SV{V: IntV(fmt.Sprintf("(mod %s %s)", av.T, bv.T)), T: tInt}
 		}
 	}
 	specFail("cannot translate %s", x.String())
@@ -465,19 +482,19 @@ func (e *SpecEnv) call(x *Expr) SV {
 			specFail("%s of non-slice", x.Name)
 		}
 		if x.Name == "len" {
-			return SV{a.V.Fs[1], tInt}
+			return SV{V: a.V.Fs[1], T: tInt}
 		}
-		return SV{a.V.Fs[2], tInt}
+		return SV{V: a.V.Fs[2], T: tInt}
 	case "ptr":
 		a := e.tr(x.Args[0])
 		if a.V.K != KSlice {
 			specFail("ptr of non-slice")
 		}
-		return SV{a.V.Fs[0], tRef}
+		return SV{V: a.V.Fs[0], T: tRef}
 	case "alive":
 		a := e.tr(x.Args[0])
 		h := sh.cur("$alive", "(Array Int Bool)")
-		return SV{BoolV(fmt.Sprintf("(select %s %s)", h, sh.toScalar(a.V).T)), tBool}
+		return SV{V: BoolV(fmt.Sprintf("(select %s %s)", h, sh.toScalar(a.V).T)), T: tBool}
 	case "has":
 		m := e.tr(x.Args[0])
 		k := e.tr(x.Args[1])
@@ -486,30 +503,30 @@ func (e *SpecEnv) call(x *Expr) SV {
 			specFail("has() needs a map")
 		}
 		_, present := sh.mapGet(mt, m.V.T, k.V.T)
-		return SV{BoolV(present), tBool}
+		return SV{V: BoolV(present), T: tBool}
 	case "addr":
 		// addr(e.f): flat address of a location
 		l := e.loc(x.Args[0])
 		if l.Addr == "" {
 			specFail("addr(): location has no flat address")
 		}
-		return SV{IntV(l.Addr), tRef}
+		return SV{V: IntV(l.Addr), T: tRef}
 	case "mem8", "memptr", "mem32", "mem64":
 		// raw cell access: mem8(a) = mem.uint8[a]
 		a := e.tr(x.Args[0])
 		key := map[string]string{"mem8": "uint8", "memptr": "ptr", "mem32": "uint32", "mem64": "uint64"}[x.Name]
 		h := sh.cur("mem."+key, "(Array Int Int)")
-		return SV{IntV(fmt.Sprintf("(select %s %s)", h, a.V.T)), tInt}
+		return SV{V: IntV(fmt.Sprintf("(select %s %s)", h, a.V.T)), T: tInt}
 	case "brk":
-		return SV{IntV(fmt.Sprintf("(select %s 0)", sh.cur("$brk", "(Array Int Int)"))), tInt}
+		return SV{V: IntV(fmt.Sprintf("(select %s 0)", sh.cur("$brk", "(Array Int Int)"))), T: tInt}
 	case "memheap8":
-		return SV{Val{K: KArr, T: sh.cur("mem.uint8", "(Array Int Int)")}, types.NewMap(tInt, tInt)}
+		return SV{V: Val{K: KArr, T: sh.cur("mem.uint8", "(Array Int Int)")}, T: types.NewMap(tInt, tInt)}
 	case "store":
 		// store(m, k, v) on ghost maps
 		m := e.tr(x.Args[0])
 		k := e.tr(x.Args[1])
 		v := e.tr(x.Args[2])
-		return SV{Val{K: KArr, T: fmt.Sprintf("(store %s %s %s)", m.V.T, k.V.T, v.V.T)}, m.T}
+		return SV{V: Val{K: KArr, T: fmt.Sprintf("(store %s %s %s)", m.V.T, k.V.T, v.V.T)}, T: m.T}
 	case "int":
 		return e.tr(x.Args[0])
 	}
@@ -531,12 +548,12 @@ func (e *SpecEnv) call(x *Expr) SV {
 			t = n
 		}
 		if isBool(rt) {
-			return SV{BoolV(t), rt}
+			return SV{V: BoolV(t), T: rt}
 		}
 		if _, isMap := rt.Underlying().(*types.Map); isMap {
-			return SV{Val{K: KArr, T: t}, rt}
+			return SV{V: Val{K: KArr, T: t}, T: rt}
 		}
-		return SV{IntV(t), rt}
+		return SV{V: IntV(t), T: rt}
 	}
 	if e.depth > 20 {
 		specFail("pure function expansion too deep (recursive?) at %s", x.Name)
@@ -548,7 +565,7 @@ func (e *SpecEnv) call(x *Expr) SV {
 			specFail("%v", err)
 		}
 		a := e.tr(x.Args[i])
-		vars[p.Name] = SV{a.V, pt}
+		vars[p.Name] = SV{V: a.V, T: pt}
 	}
 	n := *e
 	n.vars = vars
@@ -565,6 +582,16 @@ func (e *SpecEnv) call(x *Expr) SV {
 func (e *SpecEnv) loc(x *Expr) *Loc {
 	sh := e.shadow()
 	switch x.Op {
+	case "ident":
+		if gg, ok := e.g.DB.Ghosts["$g."+x.Name]; ok {
+			if _, shadowed := e.vars[x.Name]; !shadowed {
+				gt, err := e.g.P.lookupType(gg.Typ, gg.Pkg)
+				if err != nil {
+					specFail("%v", err)
+				}
+				return &Loc{Heap: "$g." + x.Name, Idx: "", Typ: gt, Whole: true}
+			}
+		}
 	case "sel":
 		b := e.tr(x.Args[0])
 		t := b.T
